@@ -21,7 +21,10 @@ def main():
     ap.add_argument("pid")
     ap.add_argument("--tier", default=os.environ.get("VERIF_TIER", "quick"), choices=["quick", "thorough"])
     ap.add_argument("--replay", default=None)
+    ap.add_argument("--no-evidence", action="store_true", help="do not rewrite evidence/<id>.json (regression runs)")
     a = ap.parse_args()
+    if a.no_evidence:
+        os.environ["VERIF_NO_EVIDENCE"] = "1"
     seed = common.seed_from_env()
     t0 = time.time()
     import props
